@@ -749,6 +749,14 @@ class Real:
             if unsupported or heap != toks[2]:
                 return "err HeapDiffers"
             return "ok " + events
+        if op == "pkskel":
+            import props_pickle
+            from edgegraph.output import nrpickler
+            opts = dict(t.split("=") for t in toks[3:])
+            sel = opts.get("root", "all")
+            root = (self.V, self.L, self.W) if sel == "all" else self.V if sel == "verts" else self.V[int(sel[1:])]
+            data = nrpickler.dumps(root, protocol=int(opts.get("proto", "4")))
+            return "ok " + props_pickle.skeleton(data)
         if op == "mut":
             self.mutate_kept(int(toks[1]), int(toks[2]))
             return "ok"
